@@ -797,6 +797,10 @@ func main() {
 				a := parseInts(f[1] + "," + f[2])
 				postlogStress(bin, a[0], a[1])
 			}
+			if len(f) == 3 && f[0] == "logposts" {
+				a := parseInts(f[1] + "," + f[2])
+				logPostsRun(bin, a[0], a[1])
+			}
 			if len(f) == 3 && f[0] == "posts" {
 				a := parseInts(f[1] + "," + f[2])
 				postsRun(bin, a[0], a[1])
@@ -952,6 +956,14 @@ func main() {
 		postlogStress(bin, 8, 150)
 		mixRun(bin, 4, 16, 7000, 200)
 		postsRun(bin, 3, 3000)
+	}
+	// the log board's index missing at the start: the first cross-posts create it
+	nLog := 4
+	if run.Thorough() {
+		nLog = 20
+	}
+	for k := 0; k < nLog; k++ {
+		logPostsRun(bin, 4, 250)
 	}
 }
 
